@@ -96,6 +96,8 @@ def run(ctx):
                                 'CPython would round are excluded and counted.')
     ctx.coq_props('Props/C09.v')
     progs = translate(ctx)
+    from tools import worldcheck
+    worldcheck.logging_independence(ctx, 'C09')          # the summary is a function of the stream, not of the log level
     known_c10 = set(); known_end = set()
     for k in common.load_known('C10'):
         for p in k.get('pairs', []):
